@@ -283,6 +283,56 @@ pub fn run(run: &Run) {
         let third: Vec<f64> = (0..n).map(|i| i as f64 / 3.0).collect();
         explore(run, &third, &y);
     });
+    // batches: one call with many targets returns, position by position, what the one-target call returns
+    // (those are judged above); an out-of-range target anywhere in a Panic-mode batch panics
+    let batch_sizes: Vec<usize> = run.tier.pick(vec![1025, 4097, 65_537, 100_000, 100_001, 262_145], vec![1025, 4097, 65_537, 100_000, 100_001, 262_145, 1_048_577, 3_000_001]);
+    let batch_sets: Vec<Vec<f64>> = vec![vec![0.0, 1.0, 3.0], special[0].clone(), (0..200).map(|i| -2.0 + 0.25 * i as f64).collect(), (0..33).map(|i| 2f64.powi(i - 16)).collect()];
+    run.bound("batch sizes", format!("{:?} targets in one call on {} knot sets", batch_sizes, batch_sets.len()));
+    batch_sets.par_iter().for_each(|x| {
+        let n = x.len();
+        let y: Vec<f64> = (0..n).map(|i| ((i * i) % 7) as f64 - 3.0 + 0.5 * (i % 2) as f64).collect();
+        let ts = targets(x);
+        let (inr, out): (Vec<f64>, Vec<f64>) = ts.iter().partition(|&&t| !matches!(classify(x, t), Where::Below | Where::Above));
+        for checked in [true, false] {
+            for m in 0..3 {
+                let pool: Vec<f64> = if m == 0 { inr.clone() } else { ts.clone() };
+                let singles: Vec<Result<f64, String>> = pool.iter().map(|&t| call(checked, x, &y, &[t], m).map(|v| v[0])).collect();
+                for &b in &batch_sizes {
+                    run.case();
+                    run.tr();
+                    run.ok();
+                    run.nontrivial(1);
+                    // every pool entry at many positions, the last knot at the very end as well
+                    let idx = |i: usize| if i + 1 == b { pool.iter().position(|t| *t == x[n - 1]).unwrap() } else { (i * 7 + i / pool.len()) % pool.len() };
+                    let batch: Vec<f64> = (0..b).map(|i| pool[idx(i)]).collect();
+                    match call(checked, x, &y, &batch, m) {
+                        Ok(v) if v.len() == b => {
+                            if let Some(i) = (0..b).find(|&i| match &singles[idx(i)] {
+                                Ok(w) => v[i].to_bits() != w.to_bits(),
+                                Err(_) => true,
+                            }) {
+                                run.violate(&format!("batch/{}/differs-from-single-call", MODES[m]), || format!("{} knots, {} targets, mode {} {}: output #{} for target {:e} is {:e}, the one-target call gives {:?}", n, b, MODES[m], if checked { "checked" } else { "unchecked" }, i, batch[i], v[i], singles[idx(i)]));
+                            }
+                            run.outcome(&("batch", m, "ok"));
+                        }
+                        Ok(v) => run.violate("wrong-output-length", || format!("{} targets: {} outputs", b, v.len())),
+                        Err(p) => run.violate(&format!("batch/{}/panic", MODES[m]), || format!("{} knots, {} in-range targets, mode {} {}: {}", n, b, MODES[m], if checked { "checked" } else { "unchecked" }, p)),
+                    }
+                    if m == 0 && b <= 262_145 {
+                        for (k, &o) in out.iter().enumerate() {
+                            let mut bad = batch.clone();
+                            let at = (k * 7919 + b / 2) % b;
+                            bad[at] = o;
+                            run.tr();
+                            if call(checked, x, &y, &bad, 0).is_ok() {
+                                run.violate("batch/Panic/out-of-range-accepted", || format!("{} knots, {} targets with {:e} at #{}: no panic", n, b, o, at));
+                            }
+                        }
+                    }
+                }
+            }
+        }
+    });
     // rejection: permutations of 3- and 4-knot sets
     for k in [3usize, 4] {
         let base: Vec<f64> = LATTICE[1..1 + k].to_vec();
